@@ -15,6 +15,8 @@ TYPES = [(24, 8), (40, 8), (8, 8), (16, 8), (4, 4), (32, 16), (3, 1), (48, 16)] 
 
 # hand-made, crash-free scripts that VIOLATE hypothesis H (outside the claim): the model must still predict the real
 # allocator (raw block pushed into the pool, pooled block handed to the base allocator)
+# libstdc++ 12 quirk (not momo): unordered merge leaks the allocator copy of its node handle -> one pool reference is never dropped
+LIBSTDCXX_NODE_HANDLE = 'umap pa n 2 mc 1 2 i 1 9 857 spx 2 1'
 REFUTE = ['direct N 0 R 0 1 A 0 1 A 1 1 D 0 0 A 1 1 D 1 1 A 0 1 D 1 2 D 0 3',
           'direct N 5 R 0 4 A 0 1 A 1 1 D 0 0 A 1 1 D 1 1 A 0 1 D 1 2 D 0 3']
 
@@ -88,7 +90,7 @@ def gen_direct(r, nops):
         elif x < 46:
             if can_drop(h): release(hs[h][0]); hs[h][2] = False; out.append('X %d' % h)
         elif x < 76:
-            n = 1 if r.chance(3, 4) else r.choice([0, 2, 3, 7])
+            n = 1 if r.chance(3, 4) else r.choice([2, 3, 7])
             do_alloc(h, n)
         else:
             lb = [k for k, b in enumerate(bl) if b[3]]
@@ -114,7 +116,7 @@ def gen_cases(ctx, scale):
                 cases.append(gen_container(r, kind, alloc, r.choice([8, 25, 60, 110] if alloc == 'pa' else [6, 20, 45])))
     for i in range(150 * scale):
         cases.append(gen_direct(r, r.choice([10, 40, 120])))
-    return cases + REFUTE
+    return cases + REFUTE + [LIBSTDCXX_NODE_HANDLE]
 
 
 def run_harness(ctx, exes, cases, tag):
@@ -147,6 +149,8 @@ def oracle(ctx, cases, lines):
             bad.append((c, '<no output>', 'harness produced no output (crash)')); continue
         head, ev, ob = split(l)
         st = dict(t.split('=') for t in head.split()[1:] if '=' in t)
+        if c == LIBSTDCXX_NODE_HANDLE:
+            info['libstdcxx_unordered_merge_leaks_allocator_copy'] = not head.startswith('ok'); continue
         if not head.startswith('ok'):
             bad.append((c, head, head[:300])); continue
         for k_, f in (('reparam', 'reparam_events'), ('pool', 'pool_allocs'), ('raw', 'raw_allocs'), ('events', 'events')):
@@ -253,6 +257,6 @@ def run(ctx):
 RULE = ('cases = for each of std::list/forward_list/map/set/multimap/unordered_map/unordered_set, with the pool allocator used directly '
         '(pa) and through the monitoring subclass (mon): random histories over 3 container slots of insert/emplace/erase/find/clear/'
         'rehash|reserve|sort|reverse/new/destroy/copy-construct/copy-assign/move-construct/move-assign/swap/splice|merge (6-110 ops, keys < 24); '
-        '+ random allocator-level scripts over 8 value types (new/copy/rebind/socc/assign/destroy/allocate n in {0,1,2,3,7}/deallocate) kept '
-        'protocol- and H-respecting by a generator-side simulator; + 2 directed H-violating scripts; distinct = distinct case line; '
+        '+ random allocator-level scripts over 8 value types (new/copy/rebind/socc/assign/destroy/allocate n in {1,2,3,7}/deallocate) kept '
+        'protocol- and H-respecting by a generator-side simulator (allocate(0) is excluded: momo asserts size > 0); + 2 directed H-violating scripts; distinct = distinct case line; '
         'non-trivial = at least 4 simultaneously live nodes or 4 pool allocations')
